@@ -461,6 +461,8 @@ def run(prog, rep, tier):
     from .C16 import vstructure_rules
     vstructure_rules(rep, prog)
     chain_rules(rep, prog)
+    from .common import chain_test_rules
+    chain_test_rules(rep, prog)
     icpdag_rules(rep, prog)
     meek_rules(rep, prog)
     meek_definitions(rep, prog)
